@@ -7,7 +7,9 @@ package ep
 import (
 	"bytes"
 	"context"
+	"fmt"
 	"net"
+	"os"
 	"sync"
 	"sync/atomic"
 	"syscall"
@@ -58,13 +60,24 @@ type Endpoint struct {
 }
 
 // New starts a listening endpoint on a free loopback port.
-func New() *Endpoint { return NewOnBuf("127.0.0.1:0", 0) }
+func New() *Endpoint { return NewOnBuf(LoopIP()+":0", 0) }
+
+// LoopIP is a loopback address private to this process (127.A.B.1 derived from the pid).
+// Destinations reconnect to the port of an endpoint that has gone away; with several check
+// processes running side by side and every listener on 127.0.0.1, the kernel hands such a port
+// to another process's new listener sooner or later, and foreign lines show up in its stream
+// (seen in the sharded thorough tier: "received 390501 of 270600 metrics").  Distinct addresses
+// keep the port spaces of concurrent processes apart.
+func LoopIP() string {
+	pid := os.Getpid()
+	return fmt.Sprintf("127.%d.%d.1", 1+(pid/254)%254, 1+pid%254)
+}
 
 // NewSmallBuf: like New, with SO_RCVBUF set on the LISTENING socket (inherited by
 // accepted connections, so the TCP window is small from the handshake on; shrinking the
 // buffer of an established connection makes the kernel drop in-flight data and the
 // sender back off for minutes).
-func NewSmallBuf(rcvbuf int) *Endpoint { return NewOnBuf("127.0.0.1:0", rcvbuf) }
+func NewSmallBuf(rcvbuf int) *Endpoint { return NewOnBuf(LoopIP()+":0", rcvbuf) }
 
 // NewOn listens on a specific address (used to bring an endpoint back up on the same port).
 func NewOn(addr string) *Endpoint { return NewOnBuf(addr, 0) }
